@@ -251,4 +251,100 @@ theorem list_eq_of_spine {l : Term} {es : List Term} (h1 : l.spine.1 = es) (h2 :
   rw [h1, h2] at this
   exact this.symm
 
+theorem list_drop_of_lt {es : List Term} {k : Nat} (tl : Term) (h : k < es.length) :
+    ∃ e rest, Term.list (es.drop k) tl = Term.consT e rest := by
+  cases hd : es.drop k with
+  | nil => simp at hd; omega
+  | cons e rest => exact ⟨e, Term.list rest tl, rfl⟩
+
+theorem list_drop_of_ge {es : List Term} {k : Nat} (tl : Term) (h : es.length ≤ k) :
+    Term.list (es.drop k) tl = tl := by
+  rw [List.drop_eq_nil_of_le h]; rfl
+
+/-- a proper list `[e₁,…,eₙ|tl]`: `tl` is itself a proper list -/
+theorem asList_list_tail {es : List Term} {tl : Term} {es' : List Term}
+    (h : asList (Term.list es tl) = some es') : ∃ r, asList tl = some r ∧ es' = es ++ r := by
+  unfold asList at h
+  rw [spine_list] at h
+  simp only at h
+  split at h
+  · rename_i htl
+    cases h
+    exact ⟨tl.spine.1, by simp [asList, htl], rfl⟩
+  · cases h
+
+theorem asList_var (v : Nat) : asList (.var v) = none := by simp [asList, Term.nilT]
+theorem asList_int (i : Int) : asList (.int i) = none := by simp [asList, Term.nilT]
+
+theorem substT_spine_tail_atom {l : Term} {a : String} (h : l.spine.2 = .atom a) (σ : Nat → Term) :
+    substT σ l = Term.list (l.spine.1.map (substT σ)) (.atom a) := by
+  conv => lhs; rw [← list_spine l, h, substT_list]
+  simp
+
+theorem list_append (xs ys : List Term) (tl : Term) :
+    Term.list (xs ++ ys) tl = Term.list xs (Term.list ys tl) := by
+  induction xs with
+  | nil => rfl
+  | cons x xs ih => simp [ih]
+
+mutual
+  theorem occursT_lt_bound (v : Nat) : (t : Term) → occursT v t = true → v < boundT t
+    | .var w => by simp [occursT, boundT]; intro h; omega
+    | .app _ as => by intro h; simp only [occursT] at h; simp only [boundT]; exact occursA_lt_bound v as h
+    | .atom _ => by simp [occursT]
+    | .int _ => by simp [occursT]
+    | .flt _ => by simp [occursT]
+    | .str _ => by simp [occursT]
+  theorem occursA_lt_bound (v : Nat) : (as : Args) → occursA v as = true → v < boundA as
+    | .nil => by simp [occursA]
+    | .cons t ts => by
+      intro h
+      simp only [occursA, Bool.or_eq_true] at h
+      simp only [boundA]
+      rcases h with h | h
+      · have := occursT_lt_bound v t h; omega
+      · have := occursA_lt_bound v ts h; omega
+end
+
+theorem boundT_le_boundL {t : Term} {ts : List Term} (h : t ∈ ts) : boundT t ≤ boundL ts := by
+  induction ts with
+  | nil => cases h
+  | cons x xs ih =>
+    simp only [boundL, List.foldr_cons]
+    rcases List.mem_cons.mp h with rfl | h
+    · omega
+    · have := ih h; simp only [boundL] at this; omega
+
+/-- Instantiating the answer of a generating mode.  The answer substitution `γ` sends the tail
+    variable `s` to a list of fresh variables `F` (numbered from `b`, above every variable of the
+    call) and every other variable either to itself or to what `σ` sends it to.  Any `σ` that
+    sends `s` to a proper list `r` of the same length is then an instance of the answer. -/
+theorem generated_instance {b : Nat} {γ σ : Nat → Term} {s : Nat} {r : List Term}
+    (hs : γ s = Term.list (freshVars b r.length)) (hσs : σ s = Term.list r)
+    (hother : ∀ v, v ≠ s → v < b → γ v = .var v ∨ (γ v = σ v ∧ groundT (σ v) = true))
+    (t : Term) (ht : boundT t ≤ b) :
+    substT (fun v => if v < b then σ v else assign b r v) (substT γ t) = substT σ t := by
+  rw [substT_comp]
+  apply substT_congr
+  intro v hv
+  have hvb : v < b := Nat.lt_of_lt_of_le (occursT_lt_bound v t hv) ht
+  by_cases hvs : v = s
+  · subst hvs
+    rw [hs, hσs, substT_list]
+    have hnil : substT (fun v => if v < b then σ v else assign b r v) Term.nilT = Term.nilT := by
+      simp [Term.nilT, substT]
+    rw [hnil]
+    congr 1
+    have : ∀ e ∈ freshVars b r.length, substT (fun v => if v < b then σ v else assign b r v) e =
+        substT (assign b r) e := by
+      intro e he
+      simp only [freshVars, List.mem_map, List.mem_range] at he
+      obtain ⟨i, _, rfl⟩ := he
+      have : ¬ (b + i < b) := by omega
+      simp [substT, this]
+    rw [List.map_congr_left this, map_assign_freshVars]
+  · rcases hother v hvs hvb with h | ⟨h, hg⟩
+    · simp [h, substT, hvb]
+    · rw [h, substT_ground _ _ hg]
+
 end PrologVerif.Rel
